@@ -1779,7 +1779,10 @@ class AstEval:
         val = {}
         for key_ast, val_ast in zip(arg.keys, arg.values):
             if key_ast is None:
-                val.update(await self.aeval(val_ast))
+                this_val = await self.aeval(val_ast)
+                if not hasattr(this_val, "keys"):
+                    raise TypeError(f"'{type(this_val).__name__}' object is not a mapping")
+                val.update(this_val)
             else:
                 key = await self.aeval(key_ast)
                 val[key] = await self.aeval(val_ast)
